@@ -81,6 +81,16 @@ def one_case(ctx, T, sa, sb, na, nb, opn):
                 continue
             if r.GetQuantity() != refq:
                 ctx.violation("quantity:%s/%s" % (ka, kb), dict(c, got=repr(r.GetQuantity()), scalar=repr(refq)), replay=c)
+            # the same two operand objects once more: an operation may not leave anything behind in them
+            try:
+                r_again = op(a, b)
+                g1, g2 = [float(x) for x in r.GetValues()], [float(x) for x in r_again.GetValues()]
+                if len(g1) != len(g2) or any(not close(x, y) for x, y in zip(g1, g2)) or r_again.GetQuantity() != r.GetQuantity():
+                    ctx.violation("second-use-of-the-same-operands-differs:%s/%s:%s" % (ka, kb, opn), dict(c, first=g1[:5], second=g2[:5]), replay=c)
+            except ZeroDivisionError:
+                pass
+            except Exception as e:
+                ctx.violation("second-use-of-the-same-operands-raised:%s/%s:%s" % (ka, kb, type(e).__name__), dict(c, error=str(e)[:160]), replay=c)
             got = list(r.GetValues())
             if len(got) != na:
                 ctx.violation("result-length:%s/%s" % (ka, kb), dict(c, got=len(got)), replay=c)
